@@ -352,7 +352,8 @@ impl Prop for C18 {
         // 32-bit headers: structured patterns
         let pats = patterns32();
         for hdr in [0u8, 1, 4, 6] {
-            let vals = set_values(Tier::Quick, value_bits(hdr));
+            // thorough: every one of the 256 argument values of the 8-bit setters
+            let vals = set_values(tier, value_bits(hdr));
             for raw in &pats {
                 emit(Case::Get { hdr, raw: *raw });
                 for field in 0..fields(hdr).len() {
@@ -374,7 +375,7 @@ impl Prop for C18 {
     }
     fn enumerated_desc(&self, tier: Tier) -> Option<String> {
         Some(format!(
-            "{}body header: all 2^8 raws x (get, validator, set with all 256 values); control and PCI headers: all 2^16 raws x get and set of every field with {} values; SMBus/transport/routing/IANA: {} structured 32-bit patterns x get and set of every field x 18 (8 for IANA) values; transport validator: all 256 first bytes x all 256 version values; transport constructor: all 256 versions",
+            "{}body header: all 2^8 raws x (get, validator, set with all 256 values); control and PCI headers: all 2^16 raws x get and set of every field with {} values; SMBus/transport/routing/IANA: {} structured 32-bit patterns x get and set of every field x 18 values in quick / all 256 in thorough (8 for IANA); transport validator: all 256 first bytes x all 256 version values; transport constructor: all 256 versions",
             if tier == Tier::Thorough { "every getter of the SMBus, transport, routing-entry and IANA views on all 2^32 raw values (exhaustive sweep); " } else { "" },
             if tier == Tier::Thorough { "all 256 (control) / 8 (PCI)" } else { "18 (control) / 8 (PCI)" },
             patterns32().len()
